@@ -50,6 +50,8 @@ class Obj:
 
 
 MISSING = object()
+# id(FunctionDef) -> (module tree, enclosing FunctionDef or None, the node itself); filled by sa.model when it parses the package
+FN_HOME = {}
 
 
 class Raises:
@@ -70,6 +72,7 @@ class Interp:
         self.g = dict(globals_)
         self.where = where
         self.yields = []
+        self._fnstack = []
         # module-level `name = <expr>` assignments of the folded function's module, evaluated on demand
         self.modns = {}
         if modtree is not None:
@@ -208,10 +211,13 @@ class Interp:
         if a.kwarg:
             known = set(params) | {p.arg for p in a.kwonlyargs}
             env[a.kwarg.arg] = {k: v for k, v in (kwargs or {}).items() if k not in known}
+        self._fnstack.append(fn)
         try:
             self.run(fn.body, env)
         except _Return as r:
             return r.value
+        finally:
+            self._fnstack.pop()
         return None
 
     def run(self, body, env):
@@ -407,6 +413,18 @@ class Interp:
             env[t.id] = v
         elif isinstance(t, (ast.Tuple, ast.List)):
             vs = list(v)
+            stars = [i for i, x in enumerate(t.elts) if isinstance(x, ast.Starred)]
+            if len(stars) == 1:
+                i = stars[0]
+                after = len(t.elts) - i - 1
+                if len(vs) < len(t.elts) - 1:
+                    raise Raised('ValueError unpack')
+                for a, b in zip(t.elts[:i], vs[:i]):
+                    self.assign(a, b, env)
+                self.assign(t.elts[i].value, vs[i:len(vs) - after], env)
+                for a, b in zip(t.elts[i + 1:], vs[len(vs) - after:]):
+                    self.assign(a, b, env)
+                return
             if len(vs) != len(t.elts):
                 raise Raised('ValueError unpack')
             for a, b in zip(t.elts, vs):
@@ -438,7 +456,41 @@ class Interp:
         if name in self.modns:
             v = self.g[name] = self.ev(self.modns[name], {})
             return v
+        v = self.helper_from_home(name)
+        if v is not MISSING:
+            return v
         raise self.fail(f'unknown name `{name}`')
+
+    def helper_from_home(self, name):
+        """A name the caller's mocks do not define: a helper *function* defined next to the function being folded --
+        a sibling in the enclosing function (closures) or at module level -- is folded as well (so lines moved into a
+        new helper are followed); a module-level `name = <literal/simple expr>` is evaluated."""
+        if not self._fnstack:
+            return MISSING
+        home = FN_HOME.get(id(self._fnstack[-1]))
+        if home is None:
+            return MISSING
+        tree, enclosing, _ = home
+        scopes = []
+        e = enclosing
+        while e is not None:
+            scopes.append(e.body)
+            h = FN_HOME.get(id(e))
+            e = h[1] if h else None
+        scopes.append(tree.body)
+        for body in scopes:
+            for st in body:
+                if isinstance(st, ast.FunctionDef) and st.name == name:
+                    if any(isinstance(x, (ast.Yield, ast.YieldFrom)) for x in ast.walk(st)):
+                        return lambda *a, **k: iter(self.generate(st, list(a), k))
+                    return lambda *a, **k: self.call(st, list(a), k)
+                if isinstance(st, ast.Assign) and len(st.targets) == 1 and isinstance(st.targets[0], ast.Name) and st.targets[0].id == name \
+                        and body is tree.body:
+                    try:
+                        return self.ev(st.value, {})
+                    except Unsupported:
+                        return MISSING
+        return MISSING
 
     def _comp(self, gens, i, env, emit):
         if i == len(gens):
